@@ -19,6 +19,7 @@ FATAL = [('unresolvable label', 'ld8 undefined_label_xyz'), ('unresolvable label
          ('value its field cannot hold', 'ld8 300'), ('value its field cannot hold (negative)', 'ld8 0-129'),
          ('value its field cannot hold (16 bit)', 'ld16 65536'), ('value its field cannot hold (4 bit)', 'ld4 16'),
          ('value its field cannot hold (4 bit, negative)', 'ld4 0-9'), ('value its field cannot hold (4 bit, negative)', 'ld4 0-15'),
+         ('page-local target in another page (a value its field cannot hold)', 'jp4 200'), ('page-local target in another page, one page up', 'jp4 250'),
          ('value its field cannot hold (12 bit)', 'ld12 4096'), ('value its field cannot hold (12 bit, negative)', 'ld12 0-2049')]
 # unresolvable references that need more than one file: names of file scope and local scope are not visible across an #include
 FATAL_FILES = [
